@@ -17,7 +17,7 @@ def run(m, chk):
         "weighted inner product that reproduction tests cannot see); the interpolation nodes, both knot vectors and both weight vectors reach the least-squares matrices at both lstsq call sites (ARG-FLOW); the committed "
         "control points depend on them (DEP-MAY); the source curve is not modified. Orthogonality, optimality and the meaning of the returned error are not decided."
     )
-    chk.decides = ["PAIR (func2func)", "ARG-FLOW", "DEP-MAY of the committed points", "PURE(other)", 'POLY-ONLY', 'JACOBIAN (span sums of the Gram matrices carry the span length)', 'OPEN-NODES (the Gram quadrature samples no span end)']
+    chk.decides = ["MEMO-KEY (no function on the path is memoised by the value of numbers / knot vectors)", "PAIR (func2func)", "ARG-FLOW", "DEP-MAY of the committed points", "PURE(other)", 'POLY-ONLY', 'JACOBIAN (span sums of the Gram matrices carry the span length)', 'OPEN-NODES (the Gram quadrature samples no span end)']
     chk.not_decided = ["L2-orthogonality of the residual", "D = C when C lies in S", "sign / scale of the returned error"]
     pairing(r, chk, ["heavy.LeastSquare.func2func"], floor=4)
     fit_flow(r, chk)
@@ -49,3 +49,7 @@ def run(m, chk):
         chk.ob("DEP-MAY", f"func2func: matrices returned at line {ctx.cfg.nodes[nid].ast.lineno} depend on {', '.join(need)}", not miss, loc=r.loc(ctx, ctx.cfg.nodes[nid].ast), detail="" if not miss else f"func2func: the returned matrices ignore {r.fmt_deps(ctx.fi, miss)}", func="heavy.LeastSquare.func2func", construct=f"matrices ignore {r.fmt_deps(ctx.fi, miss)}")
     r.pure("PURE", FQ, ["other", "nodes"])
     r.pure("PURE", "heavy.LeastSquare.func2func", ["oldknotvector", "oldweights", "newknotvector", "newweights", "fit_nodes"])
+    from .extra import memo_key
+
+    nm = memo_key(r, chk, entries=['curves.Curve.fit_curve'])
+    chk.floor("MEMO-KEY", "functions reachable from the entry points examined for value-keyed memoisation", nm, 3)
